@@ -15,7 +15,7 @@ from mzverif.core import Sub, call, require, scribble
 
 ID = "C10"
 LEVEL = "exploration"
-TECHNIQUE = "exhaustive over graphs <= 3x3 x kinds x endpoint pairs x every shortest path x option combinations + Hypothesis up to 12x12; oracle = independent renderer (pixel-for-pixel and character-for-character) and round trip through from_pixels/from_ascii"
+TECHNIQUE = "exhaustive over graphs <= 3x3 x kinds x endpoint pairs x every shortest path x option sequences + every valid (also non-shortest) solution on shapes <= 2x3 + Hypothesis up to 12x12 + grids of 33..127 cells per side with int8 coordinates; oracle = independent renderer (pixel-for-pixel and character-for-character) and round trip through from_pixels/from_ascii"
 RULE = (
     "case = (connection bits, kind, solution/endpoints, sequence of (show_endpoints, show_solution) combinations rendered on the same object). quick: all graphs on shapes with <= 7 lattice "
     "edges completely, every 3x3 graph with 6 seeded endpoint pairs; thorough: everything <= 3x3. random: graphs up to 12x12 (20x20 "
